@@ -6,6 +6,7 @@ import PRV.Driver.C07
 import PRV.Driver.C12
 import PRV.Driver.C17
 import PRV.Driver.C18
+import PRV.Driver.Sess
 
 open PRV.Driver
 
@@ -22,4 +23,5 @@ def main (args : List String) : IO UInt32 := do
   | ["monitor", "c12"] => runMonitor C12.monitor; return 0
   | ["model", "c17"] => run C17.machine; return 0
   | ["model", "c18"] => run C18.machine; return 0
+  | ["model", "sess"] => run Sess.machine; return 0
   | _ => IO.eprintln "usage: prvdrv (model|spec) <property>"; return 2
